@@ -10,8 +10,8 @@ from ..comp import cache as C
 # relevance projection (DESIGN §2.4): a rejected observation is charged to a property only if it is an access to
 # a state component the property's theorems mention
 RELEVANT = {
-    'C01': {'cg', 'mg', 'mp', 'md', 'run', 'is', 'ie', 'cs', 'la', 'lr', 'ls', 'lp', 'sb', 'lc', 'call', 'ev'},
-    'C05': {'es', 'la', 'lr', 'mg', 'mp', 'md', 'run', 'is', 'ie', 'rt', 'cg', 'ls', 'lp', 'sb', 'lc'},
+    'C01': {'cg', 'mg', 'mp', 'md', 'run', 'is', 'ie', 'cs', 'la', 'lr', 'ls', 'lp', 'sb', 'lc', 'lu', 'call', 'ev'},
+    'C05': {'es', 'la', 'lr', 'mg', 'mp', 'md', 'run', 'is', 'ie', 'rt', 'cg', 'ls', 'lp', 'sb', 'lc', 'lu'},
     'C06': {'rt', 'ie', 'cs', 'cg', 'is', 'es', 'call'},
 }
 
@@ -30,14 +30,19 @@ ASSUMPTIONS_COMMON = [
 
 
 def _chunk(args):
-    prop, seed0, count, lifecycle_p = args
+    prop, seed0, count, lifecycle_p = args[:4]
+    family_p = args[4] if len(args) > 4 else (0.1 if prop != 'C01' else 0.0)
     logging.disable(logging.CRITICAL)
     out = Outcome()
     drv = lean.Driver()
     runs = []
     for i in range(count):
         rng = random.Random((seed0 << 20) + i)
-        scn = C.gen_scenario(rng, lifecycle=rng.random() < lifecycle_p)
+        if rng.random() < family_p:
+            scn = C.gen_takeover_resume(rng)
+            out.count('family:takeover-resume')
+        else:
+            scn = C.gen_scenario(rng, lifecycle=rng.random() < lifecycle_p, resume=(prop != 'C01'))
         case = {'scenario': scn, 'seed': (seed0 << 20) + i, 'pct': rng.choice([0, 0, 1, 2, 3])}
         mark(case)
         out.evaluations += 1
@@ -59,6 +64,8 @@ def _chunk(args):
         out.fingerprints.add(fingerprint((scn['loops'], scn['durs'], scn['fails'], r['trace'])))
         out.count('loops:%d' % len(scn['loops']))
         out.count('lifecycle:' + ('yes' if any(l['life'] != 'complete' for l in scn['loops']) else 'no'))
+        for l in scn['loops']:
+            out.count('life:' + l['life'])
         out.count('invocations', len(r['inv']))
         out.count('observations', len(r['obs']))
         for res in r['results'].values():
@@ -81,16 +88,111 @@ def _chunk(args):
     return out
 
 
+def _clean(scn):
+    import copy
+    scn = copy.deepcopy(scn)
+    for l in scn['loops']:
+        for cs in l['callers']:
+            cs.pop('_id', None)
+            cs.pop('_cancelled', None)
+    return scn
+
+
+def _judge(prop, out, case, r, runs):
+    for (p, kind, detail) in C.monitors(case['scenario'], r, {prop}):
+        out.concrete.append({'case': case, 'what': f'{kind}: {detail}', 'observed': r['obs'][-30:],
+                             'signature': {'kind': kind}})
+    for e in r['errors']:
+        out.concrete.append({'case': case, 'what': f'exception in loop thread {e[0]}: {e[1]}',
+                             'signature': {'kind': 'exception'}})
+    runs.append((case, r))
+
+
+def _chunk_sys(args):
+    """Systematic, context-bounded exploration: small scenarios of the two race families under the
+    non-preemptive schedule plus *every* single preemption (quick) / every pair of preemptions within a window
+    (thorough)."""
+    prop, seed0, nscn, depth = args
+    logging.disable(logging.CRITICAL)
+    out = Outcome()
+    drv = lean.Driver()
+    for i in range(nscn):
+        rng = random.Random((seed0 << 20) + 77000 + i)
+        fam = rng.choice(['death-race', 'death-race', 'takeover-resume'] if prop != 'C01' else ['death-race'])
+        scn0 = C.gen_death_race(rng) if fam == 'death-race' else C.gen_takeover_resume(rng)
+        out.count('systematic-family:' + fam)
+        runs = []
+        todo = [{}]
+        seen = set()
+        while todo:
+            pre = todo.pop()
+            key = tuple(sorted(pre.items()))
+            if key in seen:
+                continue
+            seen.add(key)
+            scn = _clean(scn0)
+            case = {'scenario': scn, 'seed': 0, 'pct': 0, 'preempt': {str(k): v for k, v in pre.items()}}
+            mark(case)
+            out.evaluations += 1
+            try:
+                r = C.run_scenario(scn, 0, preempt=dict(pre))
+            except RuntimeError as e:
+                out.diffs.append({'case': case, 'impl': str(e), 'model': None,
+                                  'where': 'cannot attach the instrumentation to the wrapper'})
+                break
+            case['schedule'] = r['trace']
+            case['scenario'] = _clean(scn)
+            _judge(prop, out, case, r, runs)
+            out.fingerprints.add(fingerprint((scn0['loops'], scn0['durs'], scn0['fails'], r['trace'])))
+            out.count('systematic-preemptions:%d' % len(pre))
+            if len(pre) < depth:
+                last = max(pre) if pre else -1
+                hi = len(r['branching']) if not pre else min(len(r['branching']), last + 40)
+                for d in range(last + 1, hi):
+                    for k in range(r['branching'][d]):
+                        nxt = dict(pre)
+                        nxt[d] = k
+                        todo.append(nxt)
+            if len(out.concrete) > 20:
+                break
+        answers = drv.ask(['cachelts obs=' + ';'.join(r['obs']) for c, r in runs])
+        for (case, r), a in zip(runs, answers):
+            out.traces_validated += 1
+            if a != 'ok':
+                k = int(a.split()[1]) if a.startswith('reject') and a.split()[1].isdigit() else -1
+                kind = r['obs'][k].split(':')[0] if 0 <= k < len(r['obs']) else '?'
+                if kind not in RELEVANT[prop] and kind != '?':
+                    out.count('rejected-on-a-component-of-another-property:' + kind)
+                    continue
+                out.diffs.append({'case': case, 'impl': r['obs'][max(0, k - 12):k + 2], 'model': a,
+                                  'where': f'observation {k} ({r["obs"][k] if 0 <= k < len(r["obs"]) else "?"}) is not a '
+                                           'step of the cache LTS'})
+    return out
+
+
+def _dispatch(args):
+    if args[0] == 'sys':
+        return _chunk_sys(args[1:])
+    return _chunk(args)
+
+
 def make(prop, quick_n, thorough_n, lifecycle_p):
     def run(ctx):
         n = quick_n if ctx.quick else thorough_n
         k = 4 if ctx.quick else ctx.workers
         per = max(1, n // (2 * k))
-        return run_chunks(_chunk, [(prop, ctx.seed * 1000 + j, per, lifecycle_p) for j in range(2 * k)], k,
-                          limit_s=120 if ctx.quick else 1800)
+        chunks = [(prop, ctx.seed * 1000 + j, per, lifecycle_p) for j in range(2 * k)]
+        if ctx.quick:
+            chunks += [('sys', prop, ctx.seed * 1000 + j, 8, 1) for j in range(k)]
+        else:
+            chunks += [('sys', prop, ctx.seed * 1000 + j, 12, 1) for j in range(k)]
+            chunks += [('sys', prop, ctx.seed * 1000 + 500 + j, 2, 2) for j in range(k)]
+        return run_chunks(_dispatch, chunks, k, limit_s=120 if ctx.quick else 1800)
 
     def search(ctx, outcome):
-        out = run_chunks(_chunk, [(prop, (ctx.seed + 11) * 1000 + 400 + j, 500, lifecycle_p) for j in range(8)],
+        out = run_chunks(_dispatch, [(prop, (ctx.seed + 11) * 1000 + 400 + j, 500, lifecycle_p,
+                                      0.5 if prop != 'C01' else 0.0) for j in range(8)] +
+                         [('sys', prop, (ctx.seed + 11) * 1000 + 600 + j, 4, 1) for j in range(8)],
                          ctx.workers, limit_s=180)
         out.diffs = []
         return out
@@ -102,7 +204,7 @@ def make(prop, quick_n, thorough_n, lifecycle_p):
             for cs in l['callers']:
                 cs.pop('_id', None)
                 cs.pop('_cancelled', None)
-        r = C.run_scenario(scn, case['seed'], choices=case.get('schedule'))
+        r = C.run_scenario(scn, case['seed'], choices=case.get('schedule'))   # the recorded schedule decides
         a = ctx.driver.ask(['cachelts obs=' + ';'.join(r['obs'])])[0]
         bad = C.monitors(scn, r, {prop})
         return {'case': case, 'observations': r['obs'], 'results': {k: repr(v) for k, v in r['results'].items()},
